@@ -73,12 +73,7 @@ Next ==
 
 Spec == Init /\ [][Next]_vars
 
-\* known finding C02/write-ge-max-frame: the code chunks by MAX_FRAME_LEN = MSG - TAG although
-\* snow accepts at most MSG - 1 - TAG plaintext bytes, so such a poll_write fails
-KF1(e) == e.e = "write" /\ e.res = "err" /\ e.req >= SnowMax(C) - TAG + 1
-
-StepOK == [][PropAccepts(C, P, ev')]_vars             \* C02 on the model, strict
-StepOKKF == [][PropAccepts(C, P, ev') \/ KF1(ev')]_vars \* C02 modulo the recorded finding
+StepOK == [][PropAccepts(C, P, ev')]_vars             \* C02 on the model
 StateInv == PropInv(C, P)
 NoLoop == ev.e = "read" => ev.res # "loop"
 
